@@ -56,6 +56,8 @@ def renamed(m):
             f["alias_of"] = _rn(f["alias_of"])
         if f.get("kwonly"):
             f["kwonly"] = [_rn(a) for a in f["kwonly"]]
+        if f.get("defaults"):
+            f["defaults"] = {_rn(a): v for a, v in f["defaults"].items()}
     p = {}
     for k, val in mm["params"].items():
         if k == "shocks":
